@@ -412,6 +412,24 @@ func (fr *Frame) anchor(name string, c *blockCtx, results []Term) {
 					return results[k], Ty{Spec: results[k].Sort}, true
 				}
 			}
+			if n == "$i" {
+				// innermost enclosing range loop: number of completed iterations
+				var best *loopInfo
+				for _, li := range fr.loopList {
+					if li.body[at] && (best == nil || len(li.body) < len(best.body)) {
+						best = li
+					}
+				}
+				if best != nil {
+					for _, phi := range phisOf(best.header) {
+						if phi.Comment == "rangeindex" {
+							if t, ok := fr.vals[phi]; ok {
+								return Term{"(+ " + t.S + " 1)", SInt}, mathInt, true
+							}
+						}
+					}
+				}
+			}
 			return fr.resolveLocalAt(n, at, st2)
 		}
 		if len(a.Havoc) > 0 {
